@@ -244,6 +244,41 @@ pub fn run(rep: &mut StageReport, tier: &str, seed: u64) {
         }
     }
     rep.count("payloads", payloads.len() as u64);
+    // ---- one long-lived instance, consecutive near-identical payloads -------------------------------------------
+    // (fixed-size records with one changing field: same length, same head and tail, a difference somewhere in between —
+    // whatever an instance remembers from the previous call must not show in the next one)
+    {
+        let own = all_pairs(false);
+        let mut n_seq = 0u64;
+        for pair in own.iter() {
+            for &sz in if thorough { &[100usize, 4096, 4097, 8192, 40_000, 300_000][..] } else { &[100usize, 4097, 8192, 40_000][..] } {
+                if is_slow(&pair.2) && sz > 8192 {
+                    continue;
+                }
+                let base = payload_class(&mut rng, if sz % 2 == 0 { 4 } else { 2 }, sz);
+                let flip = |pos: usize| {
+                    let mut v = base.clone();
+                    v[pos] ^= 0x55;
+                    v
+                };
+                let seq: Vec<Vec<u8>> = vec![base.clone(), flip(sz / 2), base.clone(), base.clone(), flip(0), flip(sz - 1), flip(sz / 3), flip(sz / 2 + 1), flip(sz.saturating_sub(2049).min(sz - 1)), flip(2048.min(sz - 1)), payload_class(&mut rng, 2, sz)];
+                for (k, data) in seq.iter().enumerate() {
+                    n_seq += 1;
+                    rep.evaluations += 1;
+                    match roundtrip(pair, data) {
+                        Ok(_) => {
+                            rep.distinct.insert(crate::common::mix(0x5E9, n_seq));
+                        }
+                        Err(Viol(sig, detail)) => {
+                            report(rep, Viol(format!("{}/reused-instance", sig), format!("{} — payload #{} of a sequence of same-length payloads given to one compressor instance (each differs from the first in at most one byte)", detail, k)), n_seq, json!({"pair": pair.2, "size": sz, "index_in_sequence": k}));
+                            break;
+                        }
+                    }
+                }
+            }
+        }
+        rep.count("reused_instance_roundtrips", n_seq);
+    }
     let jobs: Vec<(usize, usize)> = {
         let mut j = vec![];
         for pi in 0..pairs.len() {
